@@ -578,6 +578,11 @@ class Theory:
         # type(x) is type(y), and the path-level lookups of diff_dicts
         self.has_preds = f('has_preds', self.Path, B)
         self.path_norm = f('path_norm', self.Path, self.Path)
+        # preds_at(p) is DEFINED as the table entry under the normalised key (`p or '/'`), which is how every lookup in nbdime is made
+        self.preds_raw = f('preds_raw', self.Path, self.seq('fn').sort)
+        pq = z3.Const('pq', self.Path)
+        self.axiom('path_norm_idem', [pq], self.path_norm(self.path_norm(pq)) == self.path_norm(pq), [self.path_norm(self.path_norm(pq))])
+        self.axiom('preds_at_def0', [pq], self.preds_at(pq) == self.preds_raw(self.path_norm(pq)), [self.preds_at(pq)])
 
         # ---- Apply for mapping diffs:  am_dom / am_get as folds over the entry list ----
         # well-formed map diff relative to obj:  keys pairwise distinct; add => key not in obj; others => in obj
